@@ -62,6 +62,9 @@ def exported_names(idx):
     return names
 
 
+_STATE = {}
+
+
 def is_public(idx, fi, exported):
     if fi.parent is not None:
         return False
@@ -97,6 +100,7 @@ def run(idx, rep, tier):
     excl = excluded_ids(idx)
     own = Own(idx, excluded=excl)
     exported = exported_names(idx)
+    _STATE["exported"] = exported
     funcs = lib_funcs(idx)
     rep.analysed["functions"] = len(funcs)
     rep.analysed["matmul_may_return_operand"] = own.matmul_may_alias
@@ -274,6 +278,12 @@ def classify_site(idx, rep, own, s, counts):
                 # attribute store / mutation of the receiver itself
                 attr = s.detail
                 verdicts.append(self_write_verdict(idx, owner, attr, in_ctor, s))
+                continue
+            private_helper = not is_public(idx, owner, _STATE.get("exported", set())) and getattr(owner, "rule", None) is None
+            if pk == "operator" and private_helper:
+                # a private helper that finishes an object its callers have just built: judged at the call sites (the summary reaches
+                # the public roots; a fresh argument there is not a write into anybody's operator)
+                verdicts.append(("SUMMARY", f"writes the operator parameter `{o[1]}` of the private helper {owner.short} (discharged at its call sites / public-root rule)", ""))
                 continue
             if pk == "operator" and s.kind.startswith(("attribute store", "method", "setattr", "augmented attribute", "call")):
                 verdicts.append(("REFUTED", f"modifies the operator passed as `{o[1]}`" + (f" (attribute {s.detail})" if s.detail else ""), f"operator-param:{o[1]}"))
